@@ -510,6 +510,41 @@ def _ds_case(args):
                 finally:
                     for d in opened:
                         d.close()
+        # cached arrays follow their source: data that change between two
+        # reads (temporary feature replaced, frame rate edited) -- with the
+        # documented refresh for hierarchy children -- are read anew
+        if kind in ("hdf5", "dict", "child"):
+            from dclab.definitions import feat_logic
+            if not feat_logic.feature_exists("vf_c17_tmp"):
+                dclab.register_temporary_feature("vf_c17_tmp")
+            for a, b in itertools.product(PATS, repeat=2):
+                ds, opened, sel = open_ds()
+                try:
+                    root = opened[0] if kind == "child" else ds
+                    nroot = len(root)
+                    case = {"kind": "dataset", "ds": kind, "seed": seed}
+                    where = "dclab.rtdc_dataset.core:RTDCBase.__getitem__"
+                    for step, vals in enumerate(
+                            (np.arange(nroot) * 1.5,
+                             np.arange(nroot) * 1.5 + 100)):
+                        dclab.set_temporary_feature(root, "vf_c17_tmp", vals)
+                        if kind == "child":
+                            ds.rejuvenate()
+                        got = _read(ds, "vf_c17_tmp", (a, b)[step])
+                        want = _truth(vals[sel], (a, b)[step])
+                        if not np.array_equal(np.asarray(got),
+                                              np.asarray(want)):
+                            out.append(violation(
+                                where, "stale-after-source-change", case,
+                                f"{kind}: temporary feature "
+                                f"{'set' if step == 0 else 'replaced'}, "
+                                f"read by {(a, b)[step]}: "
+                                f"{np.asarray(got)} instead of {want}",
+                                {"ds": kind, "what": "temporary"}))
+                            break
+                finally:
+                    for d in opened:
+                        d.close()
     finally:
         for p in scratch.glob(f"c17_{kind}_{os.getpid()}*.rtdc"):
             p.unlink()
